@@ -6,6 +6,10 @@
 #include "export/sqfvm.h"
 #include "rvutils/pbofile.hpp"
 
+#include "fileio/default.h"
+
+#include <atomic>
+#include <filesystem>
 #include <map>
 #include <memory>
 #include <string>
@@ -56,6 +60,47 @@ void api_reset()
     for (auto& p : g_api) { if (p.second.handle && !p.second.destroyed) sqfvm_destroy_instance(p.second.handle); }
     g_api.clear();
     g_cb.clear();
+}
+
+// ------------------------------------------------------------------ allocation monitor (largest single request while armed)
+extern "C" int __sanitizer_install_malloc_and_free_hooks(void (*malloc_hook)(const volatile void*, size_t), void (*free_hook)(const volatile void*)) __attribute__((weak));
+static std::atomic<size_t> g_alloc_max{ 0 };
+static std::atomic<size_t> g_alloc_total{ 0 };
+static std::atomic<bool> g_alloc_armed{ false };
+static void alloc_hook(const volatile void*, size_t n)
+{
+    if (!g_alloc_armed.load(std::memory_order_relaxed)) return;
+    g_alloc_total.fetch_add(n, std::memory_order_relaxed);
+    size_t cur = g_alloc_max.load(std::memory_order_relaxed);
+    while (n > cur && !g_alloc_max.compare_exchange_weak(cur, n, std::memory_order_relaxed)) {}
+}
+static void free_hook(const volatile void*) {}
+static bool alloc_monitor_install()
+{
+    static int installed = -1;
+    if (installed < 0)
+    {
+        installed = (__sanitizer_install_malloc_and_free_hooks && __sanitizer_install_malloc_and_free_hooks(alloc_hook, free_hook) > 0) ? 1 : 0;
+    }
+    return installed == 1;
+}
+struct AllocScope
+{
+    bool ok;
+    AllocScope() { ok = alloc_monitor_install(); g_alloc_max = 0; g_alloc_total = 0; g_alloc_armed = true; }
+    ~AllocScope() { g_alloc_armed = false; }
+};
+
+static value pbo_describe(const rvutils::pbo::pbofile& pbo)
+{
+    auto o = value::obj();
+    auto attrs = value::arr();
+    for (auto& a : pbo.attributes()) { auto e = value::arr(); e.push(a.first).push(a.second); attrs.push(e); }
+    o.set("attributes", attrs);
+    auto files = value::arr();
+    for (auto& f : pbo.files()) { auto e = value::arr(); e.push(f.name).push((long long)f.size).push((long long)f.packing); files.push(e); }
+    o.set("files", files);
+    return o;
 }
 
 value step_extra(const std::string& op, const value& st, std::map<int, std::unique_ptr<VM>>& vms, bool& handled)
@@ -115,6 +160,56 @@ value step_extra(const std::string& op, const value& st, std::map<int, std::uniq
         else if (op == "api_reset")
         {
             api_reset();
+        }
+        else if (op == "pbo")
+        {
+            // Opens the archive the way the CLI does (pbofile(path), then add_pbo_mapping(pbo)) or the way the
+            // library entry point does (add_pbo_mapping(path)); reads the requested virtual paths through the VFS.
+            AllocScope allocs;
+            std::filesystem::path p(st["path"].str());
+            auto via = st["via"].str("cli");
+            auto itv = vms.find((int)st["vm"].i64(0));
+            if (itv == vms.end()) { out.set("harness_error", "no such vm"); return out; }
+            auto& fio = static_cast<sqf::fileio::impl_default&>(itv->second->rt->fileio());
+            if (via == "cli")
+            {
+                rvutils::pbo::pbofile pbo(p);
+                out.set("good", pbo.good());
+                if (pbo.good())
+                {
+                    out.set("desc", pbo_describe(pbo));
+                    fio.add_pbo_mapping(pbo);
+                }
+            }
+            else
+            {
+                fio.add_pbo_mapping(p);
+            }
+            auto reads = value::arr();
+            auto& want = st["read"];
+            size_t cap = (size_t)st["cap"].i64(1 << 20);
+            for (size_t i = 0; i < want.size(); i++)
+            {
+                auto e = value::obj();
+                auto req = want.at(i).str();
+                auto info = fio.get_info(req, {});
+                e.set("found", info.has_value());
+                if (info.has_value())
+                {
+                    e.set("physical", info->physical);
+                    e.set("virtual", info->virtual_);
+                    auto data = fio.read_file(*info);
+                    e.set("len", (long long)data.size());
+                    if (data.size() > cap) data.resize(cap);
+                    e.set("data", data);
+                }
+                reads.push(e);
+            }
+            out.set("reads", reads);
+            out.set("alloc_monitor", allocs.ok);
+            out.set("alloc_max", (long long)g_alloc_max.load());
+            out.set("alloc_total", (long long)g_alloc_total.load());
+            out.set("logs", itv->second->logger.drain());
         }
         else
         {
